@@ -83,13 +83,23 @@ type Op struct {
 	// LateApply (set, HEADER_TABLE_SIZE): the receiving endpoint keeps encoding with its old table for
 	// its next header block, as a peer does whose HEADERS crossed the SETTINGS in flight (F15).
 	LateApply bool `json:"late_apply,omitempty"`
+	// TblUpd (hdr / pp): before it encodes this block the sender's HPACK encoder signals a dynamic
+	// table size of its own choice (RFC 7541 4.2: any size up to the HEADER_TABLE_SIZE in force for it;
+	// the executor clamps it to that) - the block then begins with a dynamic table size update (6.3)
+	TblUpd *uint32 `json:"tbl_upd,omitempty"`
 
 	// filled in while running (not part of the input)
 	EH       bool `json:"r_eh,omitempty"`
 	FragLen  int  `json:"r_frag,omitempty"`
 	ReencLen int  `json:"r_reenc,omitempty"`
 	ListID   int  `json:"r_list,omitempty"`
-	Barrier  bool `json:"-"`
+	// SizeUpd: the dynamic table size updates the sender's completed block begins with; DecErr: what a
+	// decoder kept the way the unchanged relay keeps its own (table size = every HEADER_TABLE_SIZE
+	// value as soon as it is relayed, size updates of any value accepted) says of the completed block,
+	// "" when it decodes it to the list that was sent
+	SizeUpd []uint32 `json:"r_upd,omitempty"`
+	DecErr  string   `json:"r_decerr,omitempty"`
+	Barrier bool     `json:"-"`
 }
 
 // Case is one replayable schedule.  With Ops empty the schedule is generated (adaptively) from Seed
@@ -118,6 +128,12 @@ type Params struct {
 	MaxData  int  `json:"max_data"`  // upper bound of DATA payload sizes
 	BigHdrs  bool `json:"big_hdrs"`  // header blocks up to 40 KiB
 	FlowOnly bool `json:"flow_only"` // mostly DATA / WINDOW_UPDATE / SETTINGS
+	// TblAdopt: the raw endpoints' HPACK encoders take a HEADER_TABLE_SIZE above 4096 up (their limit is
+	// lifted the way the relay lifts its own encoder's); otherwise they stay at 4096 like net/http, grpc-go
+	TblAdopt bool `json:"tbl_adopt,omitempty"`
+	// TblEpisodes: table-size episodes woven into the schedule (gen_table.go): HEADER_TABLE_SIZE raised
+	// above 4096, taken up by the peer's encoder, lowered again with a header block in flight
+	TblEpisodes int `json:"tbl_episodes,omitempty"`
 	// Conc > 0: the concurrent family - Conc bursts in which a header block of many CONTINUATION frames
 	// races with every other writer of the same destination (gen_conc.go)
 	Conc int `json:"conc,omitempty"`
